@@ -1,4 +1,5 @@
 import PeliteModel.Model.Json
+import PeliteModel.Spec.JsonText
 import PeliteModel.Thm.C05
 import PeliteModel.Thm.C07
 /-! Helper lemmas for C19. -/
@@ -587,5 +588,188 @@ theorem printMembers_lt : (kvs : List (List Nat × Json)) → BytesOKMembers kvs
     · omega
     · exact i3 hc
 end
+
+end Pelite.Json
+
+/-! ## the printed text against the grammar of RFC 8259 (`Spec/JsonText.lean`); statements: Thm/C19Text.lean -/
+namespace Pelite.Json
+open Pelite.Spec Pelite.Spec.JsonText
+
+/-! ### numbers -/
+
+theorem digits_of_isDigit {l : List Nat} (h : ∀ c ∈ l, isDigit c = true) : Digits l := by
+  intro c hc
+  have := (isDigit_iff c).1 (h c hc)
+  exact this
+
+/-- `itoa`'s digits are an `int` of the RFC: `0`, or a non-zero digit followed by digits -/
+theorem decimal_int (n : Nat) : JsonText.Int (decimal n) := by
+  have hd := decimal_digits n
+  have hne := decimal_ne_nil n
+  have hh := decimal_head n
+  match hl : decimal n with
+  | [] => exact absurd hl hne
+  | d :: ds =>
+    rw [hl] at hd hh
+    have hd0 := (isDigit_iff d).1 (hd d (by simp))
+    have hds : Digits ds := digits_of_isDigit (fun c hc => hd c (by simp [hc]))
+    by_cases h0 : d = 48
+    · have hn : n = 0 := hh (by simp [h0])
+      subst hn
+      rw [decimal_zero] at hl
+      injection hl with h1 h2
+      subst h1 h2
+      exact JsonText.Int.zero
+    · exact JsonText.Int.pos d ds ⟨by omega, hd0.2⟩ hds
+
+theorem decimal_number (n : Nat) : Number (decimal n) := by
+  have := Number.mk [] (decimal n) [] [] OptMinus.none (decimal_int n) OptFrac.none OptExp.none
+  simpa using this
+
+/-! ### strings -/
+
+theorem hexDigitL_isHex (n : Nat) (h : n < 16) : IsHex (hexDigitL n) := by
+  unfold hexDigitL IsHex IsDigit
+  split <;> omega
+
+/-- one byte of a string prints as one `char` of the RFC -/
+theorem escByte_chr (b : Nat) : Chr (escByte b) := by
+  unfold escByte
+  split
+  · exact Chr.escape _ (by unfold IsEscapeLetter; omega)
+  split
+  · exact Chr.escape _ (by unfold IsEscapeLetter; omega)
+  split
+  · exact Chr.escape _ (by unfold IsEscapeLetter; omega)
+  split
+  · exact Chr.escape _ (by unfold IsEscapeLetter; omega)
+  split
+  · exact Chr.escape _ (by unfold IsEscapeLetter; omega)
+  split
+  · exact Chr.escape _ (by unfold IsEscapeLetter; omega)
+  split
+  · exact Chr.escape _ (by unfold IsEscapeLetter; omega)
+  split
+  · rename_i h
+    exact Chr.uescape 48 48 _ _ (Or.inl ⟨by omega, by omega⟩) (Or.inl ⟨by omega, by omega⟩)
+      (hexDigitL_isHex _ (by omega)) (hexDigitL_isHex _ (by omega))
+  · exact Chr.unescaped b (by unfold Unescaped; omega)
+
+theorem flatMap_escByte_chars (s : List Nat) : Chars (s.flatMap escByte) := by
+  induction s with
+  | nil => exact Chars.nil
+  | cons b r ih =>
+    rw [List.flatMap_cons]
+    exact Chars.cons _ _ (escByte_chr b) ih
+
+theorem printStr_str (s : List Nat) : Str (printStr s) := by
+  have := Str.mk _ (flatMap_escByte_chars s)
+  simpa [printStr] using this
+
+/-! ### structural characters without white space (the compact formatter writes none) -/
+
+theorem tok_bare (c : Nat) : Tok c [c] := by
+  have := Tok.mk (c := c) [] [] (by intro x hx; cases hx) (by intro x hx; cases hx)
+  simpa using this
+
+/-! ### values -/
+
+mutual
+theorem print_value : (j : Json) → Value (print j)
+  | .null => by simp only [print]; exact Value.null
+  | .bool true => by simp only [print]; exact Value.true_
+  | .bool false => by simp only [print]; exact Value.false_
+  | .num n => by simp only [print]; exact Value.number _ (decimal_number n)
+  | .str s => by simp only [print]; exact Value.string _ (printStr_str s)
+  | .arr [] => by
+    have := Value.arrayEmpty _ _ (tok_bare 0x5B) (tok_bare 0x5D)
+    simpa [print, printElems] using this
+  | .arr (x :: xs) => by
+    have ih := printElems_elements (x :: xs) (by simp)
+    have := Value.array _ _ _ (tok_bare 0x5B) ih (tok_bare 0x5D)
+    simpa [print] using this
+  | .obj [] => by
+    have := Value.objectEmpty _ _ (tok_bare 0x7B) (tok_bare 0x7D)
+    simpa [print, printMembers] using this
+  | .obj (m :: ms) => by
+    have ih := printMembers_members (m :: ms) (by simp)
+    have := Value.object _ _ _ (tok_bare 0x7B) ih (tok_bare 0x7D)
+    simpa [print] using this
+theorem printElems_elements : (xs : List Json) → xs ≠ [] → Elements (printElems xs)
+  | [], h => absurd rfl h
+  | [x], _ => by simp only [printElems]; exact Elements.one _ (print_value x)
+  | x :: y :: zs, _ => by
+    have i1 := print_value x
+    have i2 := printElems_elements (y :: zs) (by simp)
+    have := Elements.more _ _ _ i1 (tok_bare 0x2C) i2
+    simpa [printElems] using this
+theorem printMembers_members : (kvs : List (List Nat × Json)) → kvs ≠ [] → Members (printMembers kvs)
+  | [], h => absurd rfl h
+  | [(k, v)], _ => by
+    have := Members.one _ _ _ (printStr_str k) (tok_bare 0x3A) (print_value v)
+    simpa [printMembers] using this
+  | (k, v) :: m :: ms, _ => by
+    have i3 := printMembers_members (m :: ms) (by simp)
+    have := Members.more _ _ _ _ _ (printStr_str k) (tok_bare 0x3A) (print_value v) (tok_bare 0x2C) i3
+    simpa [printMembers] using this
+end
+
+theorem value_jsonText {t : List Nat} (h : Value t) : JsonText t :=
+  ⟨[], t, [], (by intro x hx; cases hx), h, (by intro x hx; cases hx), by simp⟩
+
+/-! ### what the grammar refuses (it is not vacuous) -/
+
+/-- first character of a value: white space (in front of `[` / `{`), a literal's first letter, `-`, a
+digit, `"`, `[` or `{` -/
+def ValueStart (c : Nat) : Prop :=
+  IsWs c ∨ c = 0x66 ∨ c = 0x6E ∨ c = 0x74 ∨ c = 0x2D ∨ IsDigit c ∨ c = 0x22 ∨ c = 0x5B ∨ c = 0x7B
+
+theorem tok_head {c : Nat} {t : List Nat} (h : Tok c t) : ∃ x r, t = x :: r ∧ (IsWs x ∨ x = c) := by
+  cases h with
+  | mk w1 w2 h1 h2 =>
+    cases w1 with
+    | nil => exact ⟨c, w2, by simp, Or.inr rfl⟩
+    | cons a w => exact ⟨a, w ++ [c] ++ w2, by simp, Or.inl (h1 a (by simp))⟩
+
+theorem int_head {t : List Nat} (h : JsonText.Int t) : ∃ x r, t = x :: r ∧ IsDigit x := by
+  cases h with
+  | zero => exact ⟨_, _, rfl, by unfold IsDigit; omega⟩
+  | pos d ds hd _ => exact ⟨d, ds, rfl, by unfold IsDigit19 at hd; unfold IsDigit; omega⟩
+
+theorem value_head {t : List Nat} (h : Value t) : ∃ x r, t = x :: r ∧ ValueStart x := by
+  cases h with
+  | false_ => exact ⟨_, _, rfl, by unfold ValueStart; simp⟩
+  | null => exact ⟨_, _, rfl, by unfold ValueStart; simp⟩
+  | true_ => exact ⟨_, _, rfl, by unfold ValueStart; simp⟩
+  | number _ hn =>
+    cases hn with
+    | mk m i f e hm hi _ _ =>
+      obtain ⟨x, r, hx, hdx⟩ := int_head hi
+      cases hm with
+      | none => exact ⟨x, r ++ f ++ e, by simp [hx], by unfold ValueStart; simp [hdx]⟩
+      | minus => exact ⟨0x2D, i ++ f ++ e, by simp, by unfold ValueStart; simp⟩
+  | string _ hs =>
+    cases hs with
+    | mk cs _ => exact ⟨_, _, rfl, by unfold ValueStart; simp⟩
+  | arrayEmpty b e hb _ =>
+    obtain ⟨x, r, hx, hc⟩ := tok_head hb
+    exact ⟨x, r ++ e, by simp [hx], by unfold ValueStart; rcases hc with hc | hc <;> simp [hc]⟩
+  | array b es e hb _ _ =>
+    obtain ⟨x, r, hx, hc⟩ := tok_head hb
+    exact ⟨x, r ++ es ++ e, by simp [hx], by unfold ValueStart; rcases hc with hc | hc <;> simp [hc]⟩
+  | objectEmpty b e hb _ =>
+    obtain ⟨x, r, hx, hc⟩ := tok_head hb
+    exact ⟨x, r ++ e, by simp [hx], by unfold ValueStart; rcases hc with hc | hc <;> simp [hc]⟩
+  | object b ms e hb _ _ =>
+    obtain ⟨x, r, hx, hc⟩ := tok_head hb
+    exact ⟨x, r ++ ms ++ e, by simp [hx], by unfold ValueStart; rcases hc with hc | hc <;> simp [hc]⟩
+
+/-- a text is not empty and starts with white space or the first character of a value -/
+theorem jsonText_head {t : List Nat} (h : JsonText t) : ∃ x r, t = x :: r ∧ ValueStart x := by
+  obtain ⟨w1, v, w2, h1, hv, _, rfl⟩ := h
+  obtain ⟨x, r, hx, hs⟩ := value_head hv
+  cases w1 with
+  | nil => exact ⟨x, r ++ w2, by simp [hx], hs⟩
+  | cons a w => exact ⟨a, w ++ v ++ w2, by simp, Or.inl (h1 a (by simp))⟩
 
 end Pelite.Json
